@@ -42,12 +42,16 @@ CallSet == {MCCalls[i] : i \in 1..Len(MCCalls)}
 ASSUME PrintT("SCEN " \o ToJson([classes |-> MCcl, calls |-> MCCalls]))
 
 Init == RegInit /\ results = <<>>
-Next ==
+EmitWhenComplete == Len(hist') = MaxLen => PrintT("HIST " \o ToJson([h |-> hist', exp |-> results']))
+DoStructure ==
   /\ Len(hist) < MaxLen
-  /\ \E i \in 1..Len(MCCalls) :
-        /\ (Structure(MCcl, MCCalls[i], RegisterNested) \/ Unstructure(MCcl, MCCalls[i], RegisterNested))
-        /\ results' = Append(results, last'.res)
-  /\ (Len(hist') = MaxLen => PrintT("HIST " \o ToJson([h |-> hist', exp |-> results'])))
+  /\ \E i \in 1..Len(MCCalls) : Structure(MCcl, MCCalls[i], RegisterNested) /\ results' = Append(results, last'.res)
+  /\ EmitWhenComplete
+DoUnstructure ==
+  /\ Len(hist) < MaxLen
+  /\ \E i \in 1..Len(MCCalls) : Unstructure(MCcl, MCCalls[i], RegisterNested) /\ results' = Append(results, last'.res)
+  /\ EmitWhenComplete
+Next == DoStructure \/ DoUnstructure
 Spec == Init /\ [][Next]_mvars
 
 InvHistoryIndependent == HistoryIndependent(MCcl, CallSet)
